@@ -676,8 +676,42 @@ func R2Model(c *Ctx) {
 			c.R.Anchor(rule, "parser."+n)
 			continue
 		}
+		// the copy/advance statements may sit in fn itself or in a same-package helper that fn calls with its
+		// width as a constant argument (e.g. takeFixed(4)); inside the helper that parameter stands for W
+		bf := fn
+		var wParam *ssa.Parameter
+		hasCopy := func(f *ssa.Function) bool {
+			found := false
+			EachCall(f, func(ci ssa.CallInstruction) {
+				if CalleeName(ci) == "builtin.copy" {
+					found = true
+				}
+			})
+			return found
+		}
+		if !hasCopy(fn) {
+			EachCall(fn, func(ci ssa.CallInstruction) {
+				h := ci.Common().StaticCallee()
+				if h == nil || h.Blocks == nil || FuncPkgPathOf(h) != PkgParser || !hasCopy(h) || wParam != nil {
+					return
+				}
+				for i, a := range ci.Common().Args {
+					if k, ok := ConstInt(a); ok && k == w && i < len(h.Params) {
+						if bt, ok := h.Params[i].Type().Underlying().(*types.Basic); ok && bt.Info()&types.IsInteger != 0 {
+							bf, wParam = h, h.Params[i]
+						}
+					}
+				}
+			})
+		}
+		wv := func(v ssa.Value) (int64, bool) {
+			if v != nil && wParam != nil && IsParam(v, wParam) {
+				return w, true
+			}
+			return ConstInt(v)
+		}
 		nCopy, nAdv := 0, 0
-		for _, b := range fn.Blocks {
+		for _, b := range bf.Blocks {
 			for _, in := range b.Instrs {
 				switch x := in.(type) {
 				case *ssa.Call:
@@ -692,17 +726,17 @@ func R2Model(c *Ctx) {
 						continue
 					}
 					lowOK := src.Low == nil
-					if v, ok := ConstInt(src.Low); ok && v == 0 {
+					if v, ok := wv(src.Low); ok && v == 0 {
 						lowOK = true
 					}
 					highOK, how := false, ""
-					if v, ok := ConstInt(src.High); ok && v == w {
+					if v, ok := wv(src.High); ok && v == w {
 						highOK, how = true, fmt.Sprintf("buffer[:%d]", w)
 					} else if src.High != nil && isLenOfBuffer(src.High) {
 						// only under Length() == W
 						for _, f := range FactsAt(b) {
 							if bo, ok := f.Cond.(*ssa.BinOp); ok && bo.Op == token.EQL && f.Truth {
-								if v, ok := ConstInt(bo.Y); ok && v == w && isLenOfBuffer(bo.X) {
+								if v, ok := wv(bo.Y); ok && v == w && isLenOfBuffer(bo.X) {
 									highOK, how = true, fmt.Sprintf("buffer[:Length()] under Length()==%d", w)
 								}
 							}
@@ -721,12 +755,12 @@ func R2Model(c *Ctx) {
 					construct := "p.buffer = " + AccessPath(x.Val)
 					okAdv := false
 					if sl, ok := x.Val.(*ssa.Slice); ok {
-						if v, ok := ConstInt(sl.Low); ok && v == w && sl.High == nil {
+						if v, ok := wv(sl.Low); ok && v == w && sl.High == nil {
 							okAdv = true
 						}
 						// empty literal: []byte{} is a slice of a zero-length array
 						if al, ok := sl.X.(*ssa.Alloc); ok && strings.Contains(al.Type().String(), "[0]") {
-							okAdv = hasLenEq(b, w)
+							okAdv = hasLenEqW(b, w, wv)
 						}
 					}
 					if okAdv {
@@ -743,7 +777,7 @@ func R2Model(c *Ctx) {
 		// coverage: the field is decoded for every buffer length >= W (both the
 		// "exactly W" and the "more than W" class reach a copy)
 		coverEq, coverGt := false, false
-		for _, b := range fn.Blocks {
+		for _, b := range bf.Blocks {
 			has := false
 			for _, in := range b.Instrs {
 				if cl, ok := in.(*ssa.Call); ok && CalleeName(cl) == "builtin.copy" {
@@ -771,7 +805,7 @@ func R2Model(c *Ctx) {
 					other = true
 					continue
 				}
-				v, isC := ConstInt(bo.Y)
+				v, isC := wv(bo.Y)
 				if !isC {
 					other = true
 					continue
@@ -906,6 +940,18 @@ func hasLenEq(b *ssa.BasicBlock, w int64) bool {
 	for _, f := range FactsAt(b) {
 		if bo, ok := f.Cond.(*ssa.BinOp); ok && bo.Op == token.EQL && f.Truth {
 			if v, ok := ConstInt(bo.Y); ok && v == w && isLenOfBuffer(bo.X) {
+				return true
+			}
+		}
+	}
+	return false
+}
+
+// hasLenEqW is hasLenEq with a width evaluator (the width may be a helper's parameter).
+func hasLenEqW(b *ssa.BasicBlock, w int64, wv func(ssa.Value) (int64, bool)) bool {
+	for _, f := range FactsAt(b) {
+		if bo, ok := f.Cond.(*ssa.BinOp); ok && bo.Op == token.EQL && f.Truth {
+			if v, ok := wv(bo.Y); ok && v == w && isLenOfBuffer(bo.X) {
 				return true
 			}
 		}
